@@ -289,4 +289,5 @@ _ins("C05", "text", "Tied to the code by",
      "An archive header the reader accepts announces tables of at most a million 16-byte entries each, a sector shift of at most 20, and "
      "tables inside the announced size plus 64 KiB (mpq_accepted_header_bounds, mpq_accepted_tables_inside: consequences of the header model "
      "of C01, which is compared with MpqHeader::read on every mutated header). ")
+_rep("C16", "text", "(28/156/148 bytes, what the reader skips). ", "(28/156/148 bytes, what the reader skips); whatever the parser accepts is a normal form (header_parse_normal). ")
 
